@@ -11,7 +11,7 @@
 
    The action chain is [A0: filter, A1: join-like]: an event's class decides what each action
    returns (P pass, D discard at A0, B break at A0, H hold at A1, C collapse into a held run at A1,
-   R refused at admission, X refused by the input's own PassEvent after the pool handed out an event, N not matched by A1's selector: A1 is skipped unless it is busy with a run, S split at A0: Spawn produces KidsPer child events that run through A1 and to the output
+   R refused at admission, X refused by the input's own PassEvent after the pool handed out an event, N not matched by A1's selector: A1 is skipped unless it is busy with a run, S (and Y: the last child is held by A1) split at A0: Spawn produces KidsPer child events that run through A1 and to the output
    inside the parent's Do call, then the parent breaks out and follows them to the output as a child-parent event,
    which no send function sees and whose Commit is the one the input is notified of).  Mechanism switches M_* (all TRUE = the code as it is) let TLC produce
    the shortest schedule that distinguishes an implementation with the mechanism from one without;
@@ -34,6 +34,7 @@ CONSTANTS
   M_DQEmptiesBatch,        \* after the dead-queue hand-over the main batch is emptied
   M_CommitMax,             \* stream.commit keeps the maximum
   M_BusyTakesAll,          \* an action that holds a run receives EVERY event of the stream, also one its selector does not match
+  M_SpawnFlushesBusy,      \* processor.Spawn ends by sending a time-out event to every busy action
   M_RefusedBackOnce,       \* an event refused by the input's PassEvent is returned to the pool exactly once
   M_TimerFlushesAny        \* the batch heartbeat seals ANY non-empty open batch, also one that holds only split parents
 
@@ -72,8 +73,10 @@ NLines == Len(lines)
 IsKid(e) == KidsPer > 0 /\ e > KidBase
 ParentOf(k) == ((k - KidBase - 1) \div KidsPer) + 1
 Kids(e) == [i \in 1..KidsPer |-> KidBase + KidsPer * (e - 1) + i]
-Cls(e) == IF IsKid(e) THEN "K" ELSE lines[e].cls
-IsParent(e) == KidsPer > 0 /\ e # 0 /\ ~IsKid(e) /\ lines[e].cls = "S"
+\* children pass the join-like action, except the LAST child of a class-Y split, which that action holds
+Cls(e) == IF ~IsKid(e) THEN lines[e].cls
+          ELSE IF lines[ParentOf(e)].cls = "Y" /\ e = Kids(ParentOf(e))[KidsPer] THEN "H" ELSE "K"
+IsParent(e) == KidsPer > 0 /\ e # 0 /\ ~IsKid(e) /\ lines[e].cls \in {"S", "Y"}
 LineOf(e) == IF IsKid(e) THEN ParentOf(e) ELSE e
 SidOf(e) == <<lines[LineOf(e)].src, lines[LineOf(e)].stream>>
 \* the event a processor is working on: its stream's event, or the child of it that is being pushed through
@@ -245,7 +248,7 @@ DoAct(p) ==
          cls == IF e = 0 THEN "T" ELSE Cls(e)
          res == IF e = 0 THEN (IF a = 0 THEN "pass" ELSE "discard")          \* time-out: A0 passes it on, A1 discards it
                 ELSE IF a = 0 THEN (CASE cls = "D" -> "discard" [] cls = "B" -> "break"
-                                      [] cls = "S" /\ KidsPer > 0 -> "spawn" [] OTHER -> "pass")
+                                      [] cls \in {"S", "Y"} /\ KidsPer > 0 -> "spawn" [] OTHER -> "pass")
                 ELSE (CASE cls = "H" -> "hold"
                         [] cls = "C" -> IF pr[p].held # 0 THEN "collapse" ELSE "pass"
                         [] OTHER -> "pass")
@@ -275,7 +278,12 @@ DoAct(p) ==
                   /\ pr' = [pr EXCEPT ![p] = [@ EXCEPT !.busy = IF res = "collapse" THEN TRUE ELSE @,
                                                        !.pc = IF res = "collapse" \/ pr[p].busy THEN "blockget" ELSE "get",
                                                        !.ev = 0]]
-             [] res = "hold" ->
+             [] res = "hold" /\ pr[p].kid # 0 ->                              \* a child is held (finalize ignores children); Spawn goes on
+                  /\ obs' = ODo(obs, e, res)
+                  /\ pr' = [pr EXCEPT ![p] = IF pr[p].kid < KidsPer THEN [@ EXCEPT !.busy = TRUE, !.held = e, !.kid = @ + 1]
+                                                ELSE [@ EXCEPT !.busy = TRUE, !.held = e, !.kid = 0, !.pc = "spawned"]]
+                  /\ UNCHANGED <<st, charged, inUse>>
+             [] res = "hold" /\ pr[p].kid = 0 ->
                   LET f == Finalize(e, notify, FALSE, "proc", st, charged, inUse, ODo(obs, e, res)) IN
                   /\ st' = f[1] /\ charged' = f[2] /\ inUse' = f[3] /\ obs' = f[4]
                   /\ pr' = [pr EXCEPT ![p] = [@ EXCEPT !.busy = TRUE, !.held = e, !.pc = "blockget", !.ev = 0]]
@@ -298,9 +306,19 @@ Out(p) ==
               ELSE [@ EXCEPT !.pc = "spawned", !.kid = 0]]
   /\ UNCHANGED <<lines, rd, inUse, st, seqOf, charged, wk, nfail, sched>>
 
+\* the end of processor.Spawn: every busy action gets a time-out event, so a run that a child started (or continued) is flushed
+\* before the parent goes on
+SpawnFlush(p) ==
+  /\ pr[p].pc = "spawned" /\ pr[p].held # 0 /\ M_SpawnFlushesBusy
+  /\ CanAdd("main")
+  /\ bt' = [bt EXCEPT !["main"] = Added(@, pr[p].held)]
+  /\ obs' = OAdd(OPropagate(obs, pr[p].held), "main", pr[p].held)
+  /\ pr' = [pr EXCEPT ![p] = [@ EXCEPT !.held = 0, !.busy = FALSE]]
+  /\ UNCHANGED <<lines, rd, inUse, st, seqOf, charged, wk, nfail, sched>>
+
 \* Spawn returned: the split action returns ActionBreak for the parent, which goes to the output after its children
 SpawnDone(p) ==
-  /\ pr[p].pc = "spawned"
+  /\ pr[p].pc = "spawned" /\ (pr[p].held = 0 \/ ~M_SpawnFlushesBusy)
   /\ obs' = ODo(obs, pr[p].ev, "break")
   /\ pr' = [pr EXCEPT ![p].pc = "out"]
   /\ UNCHANGED <<lines, rd, inUse, st, seqOf, charged, bt, wk, nfail, sched>>
@@ -401,7 +419,7 @@ CommitDone(b, k) ==
   /\ UNCHANGED <<lines, rd, inUse, st, seqOf, charged, pr, nfail, obs, sched>>
 
 -----------------------------------------------------------------------------
-ProcStep(p) == JoinPop(p) \/ Attach(p) \/ InstantGet(p) \/ BlockGet(p) \/ TimeoutInject(p) \/ Flush(p) \/ DoAct(p) \/ Out(p) \/ SpawnDone(p)
+ProcStep(p) == JoinPop(p) \/ Attach(p) \/ InstantGet(p) \/ BlockGet(p) \/ TimeoutInject(p) \/ Flush(p) \/ DoAct(p) \/ Out(p) \/ SpawnFlush(p) \/ SpawnDone(p)
 BatchStep(b, k) == WorkerTake(b, k) \/ SendCall(b, k) \/ SendOK(b, k) \/ SendFail(b, k) \/ RetryOrGiveUp(b, k)
                    \/ FailOne(b, k) \/ CommitTurn(b, k) \/ CommitOne(b, k) \/ CommitDone(b, k)
 UsedBatchers == IF HasDQ THEN Batchers ELSE {"main"}
